@@ -344,6 +344,25 @@ def run_leg(pid, tier, seed):
     for h in hangs:
         p = C.write_replay(pid, "seglog-hang-%d" % len(violations), C.hang_payload(h, {sc["run"]: sc for sc in scripts}))
         violations.append(dict(prop=pid, replay=p, what="call did not return: " + h[:200]))
+    # every call of these histories must end the way NomtApi says (the scripts carry the expected outcome): a store
+    # that does not reopen, a rollback that is refused or a commit that fails is a violation by itself
+    for sc in scripts:
+        for rec in runs.get(sc["run"], []):
+            i = rec.get("i")
+            if i is None or not (0 <= i < len(sc["steps"])) or rec.get("ev") in ("Image", "reset"):
+                continue
+            st = sc["steps"][i]
+            if st["a"] in sync.SYNC_OPS and st["a"] != "Rollback" and rec.get("ev") == st["a"]:
+                want = st.get("res", "Ok")
+                got = str(rec.get("res"))
+                # (rollback outcomes depend on how much more than promised the log kept across reopens - both ways - and
+                # are judged by ApiTrace in the main legs; a commit or a reopen that fails where success is due is
+                # judged here)
+                if want == "Ok" and got != "Ok":
+                    p = C.write_replay(pid, "seglog-outcome-run%d-%d" % (sc["run"], i), dict(kind="crash-image", property=pid, script=sc, record=rec))
+                    violations.append(dict(prop=pid, replay=p, what="%s at step %d ended with %s where the specification says %s"
+                                                                    % (st["a"], i, got[:160], want)))
+                    break
     traces = build_traces(events, scripts, max_streams=plan.get("streams"))
     nrec = sum(len(t) for t in traces.values())
     ncrash = sum(1 for t in traces.values() for r, _ in t if r["k"] == "crash")
